@@ -360,4 +360,4 @@ def run(ctx):
     if ctx.tier == 'quick':
         core.run_sharded(ctx, __name__, 'shard', 1, (3000,))
     else:
-        core.run_sharded(ctx, __name__, 'shard', getattr(ctx, 'shards_override', None) or 16, (10000,))
+        core.run_sharded(ctx, __name__, 'shard', getattr(ctx, 'shards_override', None) or 16, (30000,))
